@@ -286,6 +286,114 @@ oracle_t generic_oracle(vt::Rng& rng, const function_t& f, bool check_grad)
     return o;
 }
 
+// ---- constraints with random REAL coefficients in any dimension: the constraint seen as a function (value / gradient through
+// nano::vgrad(constraint, ...), flags through nano::convex / smooth / strong_convexity) under the float oracles above
+class constraint_function_t final : public function_t
+{
+public:
+    constraint_function_t(constraint_t c, tensor_size_t n)
+        : function_t("verif-constraint", n)
+        , m_constraint(std::move(c))
+    {
+        convex(::nano::convex(m_constraint) ? convexity::yes : convexity::no);
+        smooth(::nano::smooth(m_constraint) ? smoothness::yes : smoothness::no);
+        strong_convexity(::nano::strong_convexity(m_constraint));
+    }
+
+    rfunction_t clone() const override { return std::make_unique<constraint_function_t>(*this); }
+
+    scalar_t do_vgrad(vector_cmap_t x, vector_map_t gx) const override { return ::nano::vgrad(m_constraint, x, gx); }
+
+private:
+    constraint_t m_constraint;
+};
+
+constraint_t make_real_constraint(vt::Rng& rng, int kind, tensor_size_t& n, std::string& name, const strings_t& fun_ids)
+{
+    const auto scale = std::pow(10.0, rng.uniform(-2.0, 1.0));
+    const auto rvec  = [&]()
+    {
+        vector_t v(n);
+        for (tensor_size_t i = 0; i < n; ++i)
+        {
+            v(i) = rng.uniform(-scale, scale);
+        }
+        return v;
+    };
+    const auto rmat = [&]()
+    {
+        // symmetric P (the check's assumption): positive semi-definite of any rank, positive definite, or indefinite
+        matrix_t   P(n, n);
+        const auto shape = rng.range(0, 2);
+        if (shape < 2)
+        {
+            const auto rows = shape == 0 ? rng.range(1, n) : n;
+            matrix_t   B(rows, n);
+            for (tensor_size_t i = 0; i < B.size(); ++i)
+            {
+                B(i) = rng.uniform(-scale, scale);
+            }
+            P = B.transpose() * B;
+            if (shape == 1)
+            {
+                P.matrix() += matrix_t::identity(n, n).matrix() * rng.uniform(0.01, 2.0);
+            }
+        }
+        for (tensor_size_t i = 0; i < n; ++i)
+        {
+            for (tensor_size_t j = i; j < n; ++j)
+            {
+                P(i, j) = P(j, i) = shape == 2 ? rng.uniform(-scale, scale) : 0.5 * (P(i, j) + P(j, i));
+            }
+        }
+        return P;
+    };
+    const auto dim = rng.range(0, n - 1);
+    const auto val = rng.uniform(-scale, scale);
+    switch (kind)
+    {
+    case 0: name = "constant"; return constraint::constant_t{val, dim};
+    case 1: name = "minimum"; return constraint::minimum_t{{val, dim}};
+    case 2: name = "maximum"; return constraint::maximum_t{{val, dim}};
+    case 3: name = "ball-eq"; return constraint::euclidean_ball_equality_t{{rvec(), rng.uniform(0.01, 3.0)}};
+    case 4: name = "ball-ineq"; return constraint::euclidean_ball_inequality_t{{rvec(), rng.uniform(0.01, 3.0)}};
+    case 5: name = "linear-eq"; return constraint::linear_equality_t{{rvec(), val}};
+    case 6: name = "linear-ineq"; return constraint::linear_inequality_t{{rvec(), val}};
+    case 7: name = "quadratic-eq"; return constraint::quadratic_equality_t{{rmat(), rvec(), val}};
+    case 8: name = "quadratic-ineq"; return constraint::quadratic_inequality_t{{rmat(), rvec(), val}};
+    default:
+    {
+        // any registered prototype (random summands: random data inside the machine-learning flavoured ones)
+        rfunction_t f;
+        std::string id;
+        for (int tries = 0; tries < 20 && !f; ++tries)
+        {
+            id = fun_ids[static_cast<size_t>(rng.range(0, static_cast<int64_t>(fun_ids.size()) - 1))];
+            try
+            {
+                f = function_t::all().get(id)->make(n, rng.range(5, 40));
+            }
+            catch (const std::exception&)
+            {
+                f.reset();
+            }
+        }
+        if (!f)
+        {
+            id = "sphere";
+            f  = function_t::all().get(id)->make(n, 10);
+        }
+        n    = f->size();
+        name = std::string(kind == 9 ? "functional-eq:" : "functional-ineq:") + id;
+        if (kind == 9)
+        {
+            return constraint::functional_equality_t{std::move(f)};
+        }
+        return constraint::functional_inequality_t{std::move(f)};
+    }
+    }
+}
+
 // ---- losses
 struct loss_info_t
 {
@@ -592,6 +700,112 @@ void ml_case(vt::Rng& rng, int64_t kase)
     vt::put(vt::J("Generic").s("fn", "gboost-grads:" + lossid).i("dims", grads.size()).b("convex", grads.convex()).b("smooth", grads.smooth()).b("gradOK", og.gradOK)
                 .b("differentiable", og.differentiable).b("convexOK", og.convexOK).b("strongOK", og.strongOK).b("valueOnlySame", same_value(grads)).i("graderr_e12", static_cast<int64_t>(std::min(og.graderr * 1e12, 2e9)))
                 .i("case", kase));
+
+    // ---- the same objectives over other sample lists (strict subsets, permutations, lists with repeated samples: folds, bootstrap
+    // samples), all four scaling modes, cached or not
+    const auto mode = rng.range(0, 2);
+    indices_t  list;
+    if (mode == 0) // strict subset, in any order
+    {
+        auto perm = arange(0, n);
+        for (tensor_size_t i = n - 1; i > 0; --i)
+        {
+            std::swap(perm(i), perm(rng.range(0, i)));
+        }
+        list = perm.slice(0, rng.range(std::min<int64_t>(2, n - 1), n - 1));
+        if (rng.coin())
+        {
+            std::sort(list.begin(), list.end());
+        }
+    }
+    else if (mode == 1) // permutation of all samples
+    {
+        list = arange(0, n);
+        for (tensor_size_t i = n - 1; i > 0; --i)
+        {
+            std::swap(list(i), list(rng.range(0, i)));
+        }
+    }
+    else // repeated samples
+    {
+        list.resize(rng.range(2, 2 * n));
+        for (auto& s : list)
+        {
+            s = rng.range(0, n - 1);
+        }
+    }
+    const auto mname   = std::string(mode == 0 ? "subset" : (mode == 1 ? "permuted" : "repeated"));
+    const auto scaling = rng.pick(std::vector<scaling_type>{scaling_type::none, scaling_type::mean, scaling_type::minmax, scaling_type::standard});
+    const auto emit    = [&](const std::string& fn, const function_t& f, const oracle_t& r, const bool value_same, const bool with_l2)
+    {
+        vt::put(vt::J("Generic").s("fn", fn + ":" + lossid).i("dims", f.size()).b("convex", f.convex()).b("smooth", f.smooth()).b("gradOK", r.gradOK)
+                    .b("differentiable", r.differentiable).b("convexOK", r.convexOK).b("strongOK", r.strongOK).b("l2", with_l2).b("valueOnlySame", value_same)
+                    .i("graderr_e12", static_cast<int64_t>(std::min(r.graderr * 1e12, 2e9))).s("samples", mname).i("scaling", static_cast<int64_t>(scaling)).i("case", kase));
+    };
+    {
+        auto it2 = flatten_iterator_t{dataset, list};
+        it2.batch(rng.pick(std::vector<tensor_size_t>{3, 16, 1000}));
+        it2.scaling(scaling);
+        if (rng.coin())
+        {
+            it2.cache_flatten(std::numeric_limits<tensor_size_t>::max());
+        }
+        if (rng.coin())
+        {
+            it2.cache_targets(std::numeric_limits<tensor_size_t>::max());
+        }
+        const auto linear2 = linear::function_t{it2, *loss, l1, l2};
+        emit("linear-objective", linear2, generic_oracle(rng, linear2, linear2.smooth()), true, l2 > 0.0);
+    }
+    auto tit2 = targets_iterator_t{dataset, list};
+    tit2.batch(rng.pick(std::vector<tensor_size_t>{3, 16, 1000}));
+    tit2.scaling(rng.coin() ? scaling_type::none : scaling); // (the gradient boosting models themselves use `none`)
+    if (rng.coin())
+    {
+        tit2.cache_targets(std::numeric_limits<tensor_size_t>::max());
+    }
+    const auto bias2 = gboost::bias_function_t{tit2, *loss};
+    emit("gboost-bias", bias2, generic_oracle(rng, bias2, bias2.smooth()), true, false);
+    const auto scale2 = gboost::scale_function_t{tit2, *loss, cluster, soutputs, woutputs};
+    emit("gboost-scale", scale2, generic_oracle(rng, scale2, scale2.smooth()), same_value(scale2), false);
+    const auto grads2 = gboost::grads_function_t{tit2, *loss};
+    emit("gboost-grads", grads2, generic_oracle(rng, grads2, grads2.smooth()), same_value(grads2), false);
+
+    // ---- grads_function_t::gradients(outputs): per sample the loss's own (sub)gradient at (that sample's target as the iterator
+    // delivers it, that sample's output) - the same library kernel called on the sample alone (rounding of the vectorised kernels aside)
+    {
+        const auto m = list.size();
+        tensor4d_t outs(cat_dims(m, dataset.target_dims())), targets(cat_dims(m, dataset.target_dims()));
+        for (tensor_size_t i = 0; i < outs.size(); ++i)
+        {
+            outs(i) = rng.uniform(-3.0, 3.0);
+        }
+        tit2.loop([&](tensor_range_t range, size_t, tensor4d_cmap_t t) { targets.slice(range) = t; });
+        const tensor4d_t got = grads2.gradients(outs);
+        auto             ok  = got.dims() == outs.dims();
+        double           worst = 0.0;
+        for (tensor_size_t i = 0; ok && i < m; ++i)
+        {
+            tensor4d_t t1(cat_dims(1, dataset.target_dims())), o1(cat_dims(1, dataset.target_dims())), g1;
+            t1.vector() = targets.vector(i);
+            o1.vector() = outs.vector(i);
+            loss->vgrad(t1, o1, g1);
+            for (tensor_size_t c = 0; c < g1.size(); ++c)
+            {
+                const auto a = g1(c), b = got.vector(i)(c);
+                if (vt::same_bits(a, b) || (!std::isfinite(a) && !std::isfinite(b)))
+                {
+                    continue;
+                }
+                const auto err = std::fabs(a - b) / std::max({1.0, std::fabs(a), std::fabs(b)});
+                worst          = std::max(worst, std::isfinite(err) ? err : 1.0);
+            }
+        }
+        ok = ok && worst <= 1e-12;
+        vt::put(vt::J("Generic").s("fn", "gboost-gradients:" + lossid).i("dims", outs.size()).b("convex", false).b("smooth", true).b("gradOK", ok).b("differentiable", true)
+                    .b("convexOK", true).b("strongOK", true).b("valueOnlySame", true).i("graderr_e12", static_cast<int64_t>(std::min(worst * 1e12, 2e9))).s("samples", mname)
+                    .i("scaling", static_cast<int64_t>(tit2.scaling())).i("case", kase));
+    }
 }
 } // namespace
 
@@ -639,6 +853,19 @@ int main(int argc, char** argv)
                 stencil(rng, "constraint:" + name, of_constraint(c), m, radius, step, kase);
             }
             convex_record(rng, "constraint:" + name, of_constraint(c), ::nano::convex(c), ::nano::strong_convexity(c), m, radius, step, kase);
+        }
+        // (2b) the same eleven kinds with random REAL coefficients, dims 1..16: float oracles (central differences along a random
+        // direction, the first-order inequality with the declared strong-convexity coefficient when convexity is declared)
+        for (int kind = 0; kind < 11; ++kind)
+        {
+            tensor_size_t n = rng.coin(1, 4) ? rng.pick(std::vector<tensor_size_t>{1, 2, 16}) : rng.range(1, 16);
+            std::string   name;
+            const auto    c = make_real_constraint(rng, kind, n, name, fun_ids);
+            const auto    f = constraint_function_t{c, n};
+            const auto    o = generic_oracle(rng, f, f.smooth());
+            vt::put(vt::J("Generic").s("fn", "constraint-real:" + name).i("dims", n).b("convex", f.convex()).b("smooth", f.smooth()).b("gradOK", o.gradOK)
+                        .b("differentiable", o.differentiable).b("convexOK", o.convexOK).b("strongOK", o.strongOK).b("valueOnlySame", o.valueSame)
+                        .i("graderr_e12", static_cast<int64_t>(std::min(o.graderr * 1e12, 2e9))).i("case", kase));
         }
         // (3) the tuner's quadratic surrogate and its fitting objective (mse on integer data)
         {
